@@ -642,6 +642,7 @@ theorem step_linv {cv : Curve} {K0 C0 K1 C1 : Nat} {s s' : St} {op : Op} (hL : L
     obtain ⟨_, _, e⟩ := setFees_ok h
     subst e
     exact ⟨hL.l0, hL.l1, ⟨hL.cons.c0, hL.cons.c1⟩⟩
+  | foreign k u a => cases h
   | donate u which amt =>
     obtain ⟨hu, hcase⟩ := donate_ok h
     have c0 := hL.cons.c0; have c1 := hL.cons.c1
@@ -766,6 +767,7 @@ theorem step_inv {s s' : St} {op : Op} (hI : Inv s) (h : step cpCurve s op = .ok
     obtain ⟨_, _, e⟩ := setFees_ok h
     subst e
     exact ⟨⟨hI.solv0, hI.solv1, hI.lpSum, hI.locked⟩, Nat.le_refl _⟩
+  | foreign k u a => cases h
   | donate u which amt =>
     obtain ⟨hu, hcase⟩ := donate_ok h
     have hs := hI.lpSum; have hl := hI.locked
@@ -901,6 +903,7 @@ theorem step_value {s s' : St} {op : Op} (h : step cpCurve s op = .ok s') (hS : 
     obtain ⟨_, _, e⟩ := setFees_ok h
     subst e
     exact ValueLe.refl _
+  | foreign k u a => cases h
   | donate u which amt =>
     obtain ⟨_, hcase⟩ := donate_ok h
     rcases hcase with ⟨_, _, e⟩ | ⟨_, _, e⟩ | ⟨_, _, e⟩ <;> subst e
@@ -1163,6 +1166,7 @@ theorem step_deltas {cv : Curve} {s s' : St} {op : Op} (h : step cv s op = .ok s
     obtain ⟨_, _, e⟩ := setFees_ok h
     subst e
     exact ⟨0, 0, 0, 0, 0, 0, SideDelta.same _, SideDelta.same _, by simp, by simp⟩
+  | foreign k u a => cases h
   | donate u which amt =>
     obtain ⟨_, hcase⟩ := donate_ok h
     rcases hcase with ⟨_, _, e⟩ | ⟨_, _, e⟩ | ⟨_, _, e⟩ <;> subst e
